@@ -87,6 +87,8 @@ struct State {
     max_points: usize,
     /// how many blocking lock requests may still be answered with EINTR in this execution
     eintr_budget: usize,
+    /// lock requests the model granted and the kernel refused (see `flock_denied_by_kernel`)
+    kernel_denials: u64,
     interrupted: Vec<bool>,
 }
 
@@ -135,9 +137,29 @@ impl IoSched for SchedHooks {
                 Kind::Lseek => return None, // seek + write form one step: the write is the point
                 k => Op::Io(k),
             };
-            sched().point(t, op);
-            if sched().take_interrupt(t) {
-                return Some(libc::EINTR);
+            let model_lock = matches!(op, Op::Flock { .. });
+            loop {
+                sched().point(t, op.clone());
+                if sched().take_interrupt(t) {
+                    return Some(libc::EINTR);
+                }
+                if !model_lock {
+                    break;
+                }
+                // the model granted the lock: ask the kernel without waiting.  It can disagree when a
+                // descriptor that held the lock was closed while a mapping made through it is still
+                // alive (the lock belongs to the open file description, which the mapping pins).
+                // Then the kernel is right: a phantom holder keeps this thread disabled until
+                // something is unmapped, unlocked or closed, and the request is made again.
+                let r = unsafe { libc::syscall(libc::SYS_flock, fd, arg as i32 | libc::LOCK_NB) };
+                if r == 0 {
+                    break;
+                }
+                let e = unsafe { *libc::__errno_location() };
+                if e != libc::EWOULDBLOCK {
+                    return Some(e);
+                }
+                sched().flock_denied_by_kernel(t, ino, fd);
             }
         }
         None
@@ -146,6 +168,7 @@ impl IoSched for SchedHooks {
         if let Some(t) = TID.with(|c| c.get()) {
             match kind {
                 Kind::Close => sched().flock_released(t, ino, fd),
+                Kind::Munmap => sched().flock_phantoms_clear(),
                 Kind::Flock if arg & (libc::LOCK_UN as i64) != 0 => sched().flock_released(t, ino, fd),
                 Kind::Flock if ok && arg & (libc::LOCK_NB as i64) != 0 => sched().flock_acquired(t, ino, fd, arg & (libc::LOCK_SH as i64) != 0),
                 _ => {}
@@ -159,7 +182,7 @@ static SCHED_CELL: std::sync::OnceLock<Sched> = std::sync::OnceLock::new();
 
 pub fn sched() -> &'static Sched {
     SCHED_CELL.get_or_init(|| Sched {
-        state: Mutex::new(State { threads: Vec::new(), running: None, locks: HashMap::new(), flocks: HashMap::new(), flags: Vec::new(), prefix: Vec::new(), points: Vec::new(), aborted: false, deadlock: None, diverged: None, policy: RwPolicy::PolicyFree, active: false, max_points: 20_000, eintr_budget: 0, interrupted: Vec::new() }),
+        state: Mutex::new(State { threads: Vec::new(), running: None, locks: HashMap::new(), flocks: HashMap::new(), flags: Vec::new(), prefix: Vec::new(), points: Vec::new(), aborted: false, deadlock: None, diverged: None, policy: RwPolicy::PolicyFree, active: false, max_points: 20_000, eintr_budget: 0, interrupted: Vec::new(), kernel_denials: 0 }),
         cv: Condvar::new(),
     })
 }
@@ -380,13 +403,43 @@ impl Sched {
         self.state.lock().unwrap().eintr_budget = n;
     }
 
+    /// the kernel refused a lock the model had granted: undo the grant, park the request behind a
+    /// phantom holder
+    fn flock_denied_by_kernel(&self, t: usize, ino: u64, fd: i32) {
+        let mut st = self.state.lock().unwrap();
+        if !st.active {
+            return;
+        }
+        let v = st.flocks.entry(ino).or_default();
+        v.retain(|h| !(h.0 == t && h.1 == fd));
+        if !v.iter().any(|h| h.0 == usize::MAX) {
+            v.push((usize::MAX, -1, false));
+        }
+        st.kernel_denials += 1;
+    }
+
+    fn flock_phantoms_clear(&self) {
+        let mut st = self.state.lock().unwrap();
+        if !st.active {
+            return;
+        }
+        for v in st.flocks.values_mut() {
+            v.retain(|h| h.0 != usize::MAX);
+        }
+        st.flocks.retain(|_, v| !v.is_empty());
+    }
+
+    pub fn kernel_denials(&self) -> u64 {
+        self.state.lock().unwrap().kernel_denials
+    }
+
     fn flock_released(&self, t: usize, ino: u64, fd: i32) {
         let mut st = self.state.lock().unwrap();
         if !st.active {
             return;
         }
         if let Some(v) = st.flocks.get_mut(&ino) {
-            v.retain(|h| !(h.0 == t && h.1 == fd));
+            v.retain(|h| !(h.0 == t && h.1 == fd) && h.0 != usize::MAX);
             if v.is_empty() {
                 st.flocks.remove(&ino);
             }
